@@ -113,19 +113,32 @@ static void try_compile (OrcProgram * p, int t, unsigned flags, int flagkind, co
   } else {
     st_fail++;
     if (!p->orccode) { snprintf (what, sizeof (what), "non-fatal failure 0x%x left no code object: the program cannot be emulated", r); viol ("nonfatal-not-emulable", tnames[t], sig, what, text); }
-    else if (runnable) {
+    else {
+      /* a compile that reports failure must not leave the half-generated code installed: what runs is the emulator
+       * (or the program's backup function; these programs have none) */
+      if (native) { snprintf (what, sizeof (what), "non-fatal failure 0x%x (flags 0x%x) but the program's entry point is neither the emulator nor a backup function", r, flags); viol ("nonfatal-native-installed", tnames[t], sig, what, text); }
+      if (p->orccode->exec && (void *) p->orccode->exec != (void *) orc_executor_emulate && p->orccode->chunk) { snprintf (what, sizeof (what), "non-fatal failure 0x%x (flags 0x%x) but the code object points at generated code", r, flags); viol ("nonfatal-native-installed", tnames[t], sig, what, text); }
+    }
+    if (p->orccode && runnable) {
       VRunCfg c;
-      VArena A;
-      OrcExecutor ex;
+      VArena A, R;
+      OrcExecutor ex, exr;
       int sig_;
+      char m2[200];
       memset (&c, 0, sizeof (c));
       c.n = p->constant_n > 0 ? p->constant_n : 19;
       c.m = p->is_2d ? 2 : 1;
       vr_arena_alloc (&A, p, &c); vr_arena_fill (&A, &c); vr_exec_setup (&ex, p, &A, &c);
+      vr_arena_alloc (&R, p, &c); vr_arena_fill (&R, &c); vr_exec_setup (&exr, p, &R, &c);
       V_CONFINED (orc_executor_run (&ex), sig_);
       st_emul++;
-      vr_arena_free (&A);
       if (sig_) { snprintf (what, sizeof (what), "non-fatal failure 0x%x but running the program (emulation fallback) raises signal %d", r, sig_); viol ("nonfatal-not-emulable", tnames[t], sig, what, text); }
+      else {
+        orc_executor_emulate (&exr);
+        if (vr_compare (&A, &R, &c, &ex, &exr, m2, sizeof (m2))) { snprintf (what, sizeof (what), "non-fatal failure 0x%x (flags 0x%x): running the program does not give the emulation result: %s", r, flags, m2); viol ("nonfatal-wrong-result", tnames[t], sig, what, text); }
+      }
+      vr_arena_free (&A);
+      vr_arena_free (&R);
     }
   }
 }
@@ -303,6 +316,53 @@ static void space2 (long start)
         if (ns > 1) orc_program_append_str (p, "addl", d, "t1", b); else orc_program_append_str (p, "addl", d, "t1", "t1");
       }
       snprintf (sig, sizeof (sig), "resample/dest=%d,src=%d,resampled=s%d/%s", nd, ns, j + 1, lin ? "lin" : "near");
+      st_programs++;
+      for (t = 0; t < 3; t++) {
+        unsigned def;
+        if (!targets[t]) continue;
+        def = orc_target_get_default_flags (targets[t]);
+        for (e = 0; e < 4; e++) {
+          unsigned fv = (def & ~((1u << 9) | (1u << 7))) | ((e & 1) ? 0 : (1u << 9)) | ((e & 2) ? (1u << 7) : 0);
+          char text[200];
+          snprintf (text, sizeof (text), "%s with target flags 0x%x (%s-bit%s)", sig, fv, (e & 1) ? "32" : "64", (e & 2) ? ", frame pointer" : "");
+          try_compile (p, t, fv, fv == def ? 0 : (e & 1) ? 1 : 2, sig, text, 1);
+        }
+      }
+      orc_program_free (p);
+    }
+  }
+  /* vector register pressure x environment: k temporaries live at once, for {64,32-bit} x {frame pointer}: the
+   * allocator's idea of the usable registers (8 in 32-bit code) meets the encoder's */
+  {
+    int e, t, i;
+    int vshape;
+    /* vshape 0: chain t_i = f(t_i-1); 1: independent t_i = f(s1, s2); 2: independent with a second constant - the
+     * shapes differ in how many loaded operands and invariants are live next to the k temporaries, so that between
+     * them every total from 1 to beyond 16 registers occurs */
+    for (vshape = 0; vshape < 3; vshape++) for (sz = 2; sz <= 4; sz *= 2) for (k = 1; k <= 17; k++) {
+      long idx = g_idx++;
+      OrcProgram *p;
+      static const char *xorn2[] = { "", "", "xorw", "", "xorl" };
+      static const char *subn2[] = { "", "", "subw", "", "subl" };
+      if (!(idx >= start && (idx % nshards) == shard)) continue;
+      p = orc_program_new ();
+      orc_program_set_name (p, "xc2v");
+      orc_program_add_destination (p, sz, "d1");
+      orc_program_add_source (p, sz, "s1");
+      orc_program_add_source (p, sz, "s2");
+      orc_program_add_constant (p, sz, 5, "c1");
+      for (i = 0; i < k; i++) { sprintf (nm, "t%d", i + 1); orc_program_add_temporary (p, sz, nm); }
+      if (vshape == 2) orc_program_add_constant (p, sz, 9, "c2");
+      for (i = 0; i < k; i++) {
+        char prev[12];
+        sprintf (nm, "t%d", i + 1); sprintf (prev, "t%d", i);
+        if (vshape == 0) orc_program_append_str (p, i & 1 ? xorn2[sz] : addn[sz], nm, i == 0 ? "s1" : prev, i & 1 ? "s2" : "c1");
+        else if (vshape == 1) orc_program_append_str (p, (i % 3) == 0 ? addn[sz] : (i % 3) == 1 ? subn2[sz] : xorn2[sz], nm, "s1", "s2");
+        else orc_program_append_str (p, (i % 3) == 0 ? addn[sz] : (i % 3) == 1 ? subn2[sz] : xorn2[sz], nm, i & 1 ? "s1" : "s2", i & 2 ? "c1" : "c2");
+      }
+      for (i = 1; i < k; i++) { sprintf (nm, "t%d", i + 1); orc_program_append_str (p, xorn2[sz], "t1", "t1", nm); }
+      orc_program_append_str (p, addn[sz], "d1", "t1", "s1");
+      snprintf (sig, sizeof (sig), "live-temps=%d/shape=%d/size=%d", k, vshape, sz);
       st_programs++;
       for (t = 0; t < 3; t++) {
         unsigned def;
